@@ -227,6 +227,30 @@ class Ctx:
             cur.append(ln)
         if cur:
             traces.append(cur)
+        del lines
+        # large recordings are validated in chunks (TLC holds the whole chunk in memory): at most max_lines lines per TLC run
+        max_lines = kw.pop("max_lines", 1200000)
+        if sum(len(t) for t in traces) > max_lines:
+            total, chunk, n = 0, [], 0
+            chunks = []
+            for t in traces:
+                if chunk and n + len(t) > max_lines:
+                    chunks.append(chunk)
+                    chunk, n = [], 0
+                chunk.append(t)
+                n += len(t)
+            if chunk:
+                chunks.append(chunk)
+            del traces
+            for ci, ch in enumerate(chunks):
+                cp = os.path.join(self.scratch, "chunk.ndjson")
+                with open(cp, "w") as f:
+                    for t in ch:
+                        f.write("\n".join(t) + "\n")
+                chunks[ci] = None
+                total += self.validate_traces_all(module, cfg, cp, key=key, what=what, max_rejects=max_rejects, keyfn=keyfn, groupfn=groupfn,
+                                                  max_lines=max_lines + 1, **kw)
+            return total
         accepted = 0
         rejects = 0
         name = kw.pop("name", "trace.ndjson")
